@@ -6,7 +6,7 @@ PROP = dict(
                "Intersect, Difference, Xor, Not, Shift, Count; depth <= 4, arity <= 3) and every step of generated Set/Clear/ClearRow/Store programs with a "
                "naive map-based model of the documented semantics. Exploration, not proof: held on everything generated.",
     level_note="Trusted: Go toolchain, rapid, the ~300-line model in gpql_model_test.go. Single node only (placement independence is C17). Time ranges use bounds "
-               "aligned to the smallest unit of the field's quantum (unaligned bounds are C18); int fields use min=0 so that conditions stay clear of finding D16; "
+               "aligned to the smallest unit of the field's quantum (unaligned bounds are C18); int fields use min=0, are primed to their full bit depth and avoid strict `<` with a value <= 0 and integer-empty between intervals (findings D16, DQA2, DQA6 of group gQ1: int semantics are C14); "
                "keyed indexes/fields are not generated. Open finding D18 (Shift carry over a shard edge below a per-shard operator or Store) is tolerated by exactly that shape.",
     rule="distinct = hash of schema + data program + query texts. non-trivial = some query of depth >= 2 whose leaf operands hold bits in >= 2 shards, or a Shift "
          "whose operand has a bit on the last column of a container or shard, or a Not while some shard with existence data holds no bit of the operand, or (write "
